@@ -259,6 +259,31 @@ func runC16(p *Prog, r *Report, tier string) {
 	})
 	r.Check(okLoop, "R-EQUIV.copy-path", fnKey(are)+": adds every element of the slice in order", p.pos(are.Pos()), "for i := range elements { record.AddInfoElement(elements[i]) } with the error returned",
 		"the copying add path does not add each element of the given slice in order (or ignores AddInfoElement's error)", true)
+	// the records of the copying path are constructed for exactly len(elements) fields (the template header announces that
+	// count; spare capacity is a separate argument of the data constructor only)
+	nCtor := 0
+	eachInstr(are, func(in ssa.Instruction) {
+		c, ok := in.(*ssa.Call)
+		if !ok || c.Call.StaticCallee() == nil {
+			return
+		}
+		name := c.Call.StaticCallee().Name()
+		if name != "NewTemplateRecord" && name != "NewDataRecord" {
+			return
+		}
+		nCtor++
+		okN := false
+		if len(c.Call.Args) >= 2 {
+			if v, isLen := lenOfValue(c.Call.Args[1]); isLen && v == ssa.Value(are.Params[1]) {
+				okN = true
+			}
+		}
+		r.Check(okN, "R-EQUIV.copy-path", fnKey(are)+": "+name+" constructed for len(elements) fields", p.instrPos(in), "numElements = len(elements)",
+			"the record is constructed for a number of fields other than the number of elements that are added: its header announces fields that do not follow (or the element list has empty slots), unlike the other add paths", true)
+	})
+	if nCtor < 2 {
+		r.Undecided("R-EQUIV.copy-path", fnKey(are)+": record constructors", p.pos(are.Pos()), fmt.Sprintf("expected NewDataRecord and NewTemplateRecord, found %d", nCtor))
+	}
 	// PrepareRecord exactly once under Template in both
 	for _, f := range []*ssa.Function{are, av2} {
 		n := 0
